@@ -2,6 +2,7 @@
 use super::*;
 use crate::q::Q;
 use crate::rng::Rng;
+use crate::run_impl;
 use cgt_core::{Currency, CurrencyAmount, Operation, Transaction};
 use cgt_money::{FxCache, RateFile};
 use chrono::{Datelike, Duration, NaiveDate};
@@ -85,7 +86,7 @@ fn cache_slice(cache: &FxCache, keys: &[(String, i32, u32)]) -> String {
 
 pub fn run(ctx: &mut Ctx) {
     let prop = "C08";
-    ctx.ev.rule = "part 1 (conversion): generated single-security ledgers with price and fees/tax in independently chosen currencies (GBP, USD, EUR, JPY, CHF, AUD, occasionally XTS which has no rates), months from 2015-01 to the last bundled month and beyond, against the real bundled cache: each converted field must equal amount ÷ rate(own currency, own year, own month) (GBP unchanged); the report of the foreign ledger must equal the report of the pre-converted GBP ledger; a missing rate that is needed (non-zero amount) must fail naming the first such field's currency and the transaction's month; a zero amount converts to zero whatever its label; the Lean model must agree on every converted value and error. part 2 (loader): generated rate folders (real XML text, real file names, modification times) loaded with the real loader: overridden keys take the newest file's rate, all other keys keep the bundled rate, files whose period disagrees with their name, with month 13 names, or with a zero/negative rate are rejected; compared with the model's loadCache. Non-trivial = ledgers with two different non-GBP currencies on one line, and folders with ≥ 2 files; distinct by case text.".into();
+    ctx.ev.rule = "part 1 (conversion): generated single-security ledgers with price and fees/tax in independently chosen currencies (GBP, USD, EUR, JPY, CHF, AUD, occasionally XTS which has no rates), months from 2015-01 to the last bundled month and beyond, against the real bundled cache: each converted field must equal amount ÷ rate(own currency, own year, own month) (GBP unchanged); the report of the foreign ledger must equal the report of the pre-converted GBP ledger; a missing rate that is needed (non-zero amount) must fail naming the first such field's currency and the transaction's month; a zero amount converts to zero whatever its label; the Lean model must agree on every converted value and error. part 3 (CLI): ledgers mixing sterling and foreign amounts per line (incl. all-sterling prices with one foreign fee) through `cgt-tool report --format json` against the library with the bundled table. part 2 (loader): generated rate folders (real XML text, real file names, modification times) loaded with the real loader: overridden keys take the newest file's rate, all other keys keep the bundled rate, files whose period disagrees with their name, with month 13 names, or with a zero/negative rate are rejected; compared with the model's loadCache. Non-trivial = ledgers with two different non-GBP currencies on one line, and folders with ≥ 2 files; distinct by case text.".into();
     let bundled = cgt_money::load_default_cache().expect("bundled cache");
     // last bundled month for USD
     let mut last = NaiveDate::from_ymd_opt(2015, 1, 1).expect("d");
@@ -185,6 +186,7 @@ pub fn run(ctx: &mut Ctx) {
         if ctx.ev.samples.len() < 3 && i > 3 && conv.is_ok() { ctx.ev.sample(json!({"ledger": fl.iter().map(|t| t.wire()).collect::<Vec<_>>() })); }
     }
     loader_part(ctx, &bundled, &mut r);
+    cli_part(ctx, &bundled, &mut r);
 }
 
 fn run_impl_wide() -> std::collections::HashMap<u16, Decimal> { crate::run_impl::wide_exemptions().into_iter().collect() }
@@ -211,6 +213,50 @@ fn same_tokens(a: &str, b: &str) -> bool {
     let y: Vec<&str> = b.split(' ').collect();
     if x.len() != y.len() { return false; }
     x.iter().zip(&y).all(|(p, q)| if p.starts_with('#') && q.starts_with('#') { match (Q::parse(p), Q::parse(q)) { (Some(u), Some(v)) => u.close(&v, 15), _ => false } } else { p == q })
+}
+
+/// the real binary: ledgers whose prices/totals and fees/taxes carry different currencies (among them
+/// "everything in sterling except one fee"), `cgt-tool report --format json` against the library run
+/// with the bundled table
+fn cli_part(ctx: &mut Ctx, bundled: &FxCache, r: &mut Rng) {
+    use crate::cli;
+    if !cli::available() { ctx.ev.notes.push("cgt-tool binary not built: CLI conversion not exercised".into()); return; }
+    // the CLI uses the embedded exemption table (no override file in the scratch directory)
+    let cfg = run_impl::config_from(&run_impl::embedded_exemptions());
+    for k in 0..ctx.n(8, 120) {
+        ctx.ev.evaluations += 1;
+        ctx.ev.count("cli-foreign-ledgers");
+        let y = 2016 + r.below(8) as i32;
+        let m1 = 1 + r.below(6) as u32;
+        let d1 = NaiveDate::from_ymd_opt(y, m1, 1 + r.below(27) as u32).expect("d");
+        let d2 = NaiveDate::from_ymd_opt(y, m1 + 3, 1 + r.below(27) as u32).expect("d");
+        let fc = *r.pick(&["USD", "EUR", "CHF"]);
+        // shape k % 3: 0 = sterling prices, one foreign fee; 1 = foreign price, sterling fee; 2 = both foreign, different
+        let (pc1, fc1, pc2, fc2) = match k % 3 { 0 => ("GBP", "GBP", "GBP", fc), 1 => (fc, "GBP", fc, "GBP"), _ => (fc, "GBP", "GBP", fc) };
+        let fl = vec![
+            FTx { date: d1, ticker: "AAA".into(), kind: Kind::Buy, a: Decimal::from(100), b: (Decimal::new(r.range(100, 5000), 2), pc1), c: (Decimal::new(r.range(1, 900), 2), fc1) },
+            FTx { date: d2, ticker: "AAA".into(), kind: Kind::Sell, a: Decimal::from(40), b: (Decimal::new(r.range(100, 5000), 2), pc2), c: (Decimal::new(r.range(1, 900), 2), fc2) },
+            FTx { date: d2, ticker: "AAA".into(), kind: Kind::Dividend, a: Decimal::ZERO, b: (Decimal::new(r.range(100, 5000), 2), "GBP"), c: (Decimal::new(r.range(1, 300), 2), fc) },
+        ];
+        let txs: Vec<Transaction> = fl.iter().map(|t| t.to_tx()).collect();
+        let text = cgt_core::dsl::transactions_to_dsl(&txs) + "\n";
+        let lib = std::panic::catch_unwind(std::panic::AssertUnwindSafe(|| cgt_core::calculator::calculate(&txs, None, Some(bundled), &cfg)));
+        let Ok(lib) = lib else { continue };
+        let sc = cli::Scratch::new();
+        sc.write("in.cgt", &text);
+        let o = cli::run(&sc, &["report", "in.cgt", "--format", "json"]);
+        let case = format!("# property C08\n# CLI: cgt-tool report in.cgt --format json (bundled rates)\n{text}");
+        match (lib, o.code == Some(0)) {
+            (Ok(rep), true) => {
+                let a = serde_json::to_value(&rep).unwrap_or_default();
+                let b: serde_json::Value = serde_json::from_slice(&o.stdout).unwrap_or_default();
+                if a["tax_years"] != b["tax_years"] || a["holdings"] != b["holdings"] { ctx.ev.violation("oracle", "the CLI's report of a foreign-currency ledger differs from the library's with the bundled rates".into(), case); }
+            }
+            (Ok(_), false) => ctx.ev.violation("oracle", format!("the CLI fails on a ledger whose rates are all bundled: {}", o.stderr.lines().next().unwrap_or("")), case),
+            (Err(e), true) => ctx.ev.violation("oracle", format!("the library refuses ({e}) a ledger the CLI reports"), case),
+            (Err(_), false) => {}
+        }
+    }
 }
 
 fn loader_part(ctx: &mut Ctx, bundled: &FxCache, r: &mut Rng) {
